@@ -27,6 +27,7 @@ CHECKS = {
     "C16": (MC, "TLC model checking (Agreement, ExportKeySeparated, NoSecretOnWire) + replay with a scan of all messages and files for verbatim secrets + trace validation", "5 C16"),
     "C17": (MC, "TLC model checking + replay of behaviours annotated with per-output tape dependencies: equal tapes, independent tapes, tapes altered from every draw boundary on", "5 C17"),
     "C18": (MC, "TLC model checking (MC_Ext) + replay with a shadow execution holding all keys directly, and failure of every external-key call position", "5 C18"),
+    "C19": ("exploration", "model-enumerated exploration: TLC enumerates spec/Group.tla (key classes x operations x reloads), the harness replays every behaviour on the key-pair API of all 5 groups x 4 OPRF suites and evaluates every term with reference curve arithmetic", "5 C19"),
 }
 TEXT = {
     "other": "Per-execution validation of the implementation's outputs against the specification's terms: the RFC formulas are the "
